@@ -1,17 +1,34 @@
 #!/bin/sh
 # runs the repository's pinned test-suite (optionally against another tree) and compares with BASELINE.json stable_pass
 # usage: tools/run_baseline.sh [repo_dir] [junit_out]
+# Stable tests that do not pass in the parallel run are re-run once on their own (the parallel run is sensitive to machine load:
+# per-test timeouts, unseeded random tests); a test counts as passing if it passes in either run.
 REPO="${1:-/repo}"; OUT="${2:-/var/tmp/baseline_$$.xml}"
 cd "$REPO" && MPLBACKEND=Agg /venv/bin/python -m pytest -q -p no:cacheprovider --timeout=900 --continue-on-collection-errors -n 8 --junitxml="$OUT" >/dev/null 2>&1
-python3 - "$OUT" <<'PY'
-import sys, json, xml.etree.ElementTree as ET
+python3 - "$OUT" "$REPO" <<'PY'
+import sys, json, subprocess, os, xml.etree.ElementTree as ET
 base=set(json.load(open('/root/.vp/BASELINE.json'))['stable_pass'])
-passed=set()
-for tc in ET.parse(sys.argv[1]).getroot().iter('testcase'):
-    if not any(c.tag in ('failure','error','skipped') for c in tc):
-        passed.add(tc.get('classname')+'::'+tc.get('name'))
+def passed_of(path):
+    s=set()
+    for tc in ET.parse(path).getroot().iter('testcase'):
+        if not any(c.tag in ('failure','error','skipped') for c in tc):
+            s.add(tc.get('classname')+'::'+tc.get('name'))
+    return s
+passed=passed_of(sys.argv[1])
 missing=sorted(base-passed)
-print("baseline stable:",len(base),"passed now:",len(base&passed),"missing:",len(missing))
+retried=[]
+if missing and len(missing) <= 25:
+    ids=[]
+    for m in missing:
+        cls,name=m.split('::',1)
+        ids.append(cls.replace('.','/')+'.py::'+name)
+    out2=sys.argv[1]+'.retry.xml'
+    subprocess.run(['/venv/bin/python','-m','pytest','-q','-p','no:cacheprovider','--timeout=900','--junitxml='+out2]+ids,cwd=sys.argv[2],env=dict(os.environ,MPLBACKEND='Agg'),stdout=subprocess.DEVNULL,stderr=subprocess.DEVNULL)
+    if os.path.exists(out2):
+        p2=passed_of(out2); retried=sorted(set(missing)&p2); passed|=p2; os.remove(out2)
+    missing=sorted(base-passed)
+print("baseline stable:",len(base),"passed now:",len(base&passed),"missing:",len(missing), ("(passed on individual re-run: %d)"%len(retried)) if retried else "")
+for m in retried: print("  RETRIED-OK",m)
 for m in missing: print("  MISSING",m)
 sys.exit(1 if missing else 0)
 PY
